@@ -199,7 +199,7 @@ def intro_line(f):
 HEADER = "/-! GENERATED by tools/gen_case.py — C09, parser half: %s -/"
 OPTS = ["set_option linter.unusedVariables false", "set_option linter.unusedSectionVars false", "set_option linter.unusedSimpArgs false",
         "set_option maxHeartbeats 4000000", "open Lex PM Ast", "namespace PM", ""]
-CLOSE = "split_run <;> split_run' <;> "
+CLOSE = "(try dsimp only at h h') <;> split_run <;> cel_sync <;> split_run' <;> ce_norm <;> cel_sync <;> ce_norm <;> "
 
 # ------------------------------------------------------------------------------------------------ helpers outside the block
 HAND = {"matchSeq", "closed", "eachClosed", "pyInt", "asInt", "splitName"}     # ParseCase3/3b (hand) or used only through token facts
@@ -258,6 +258,11 @@ out = ["import MsqProofs.Lemmas.ParseCaseHelpers", HEADER % "the induction hypot
 out.append("/-- every function of the mutual block, with fuel `n`, on case-equivalent arguments: the same outcome, trees equal up to the case of stored texts -/")
 out.append("structure CaseF (d : Gen.D) (n : Nat) : Prop where")
 for n in order: out.append("  %s : %s" % (n, statement(fns[n], "n")))
+out.append("")
+# the induction hypothesis is used through E-matching on the two calls (as C08's `ConsF`)
+for n in order:
+    xs_, ys_, _, a1, a2 = quant(fns[n])
+    out.append("grind_pattern CaseF.%s => CaseF d n, %s, %s" % (n, " ".join([n, "d", "n"] + a1), " ".join([n, "d", "n"] + a2)))
 out += ["", "end PM"]
 open(os.path.join(LEAN, "MsqProofs/Lemmas/ParseCaseDefs.lean"), "w", encoding="utf-8").write("\n".join(out) + "\n")
 
@@ -272,9 +277,6 @@ for k, names in enumerate(parts):
         out.append("theorem caseF_%s (n : Nat) (ih : CaseF d n) :" % n)
         out.append("    %s := by" % step_statement(f, "(n+1)"))
         out.append(intro_line(f))
-        for c in order:
-            if uses(c, f.body): out.append("  have h_%s := ih.%s" % (c, c))
-        out.append("  clear ih")
         out.append("  unfold %s at h h'" % n)
         out.append("  " + CLOSE + GRIND % "")
         out.append("")
@@ -297,3 +299,107 @@ for n in order:
 out += ["", "end PM"]
 open(os.path.join(LEAN, "MsqProofs/Lemmas/ParseCase.lean"), "w", encoding="utf-8").write("\n".join(out) + "\n")
 print(len(order), "functions of the block; helpers:", len(prim) + len(pre))
+
+# ------------------------------------------------------------------------------------------------ statement level
+STRUCT_ARGS = {"DefCol", "CreateTable"}
+UPS_STMT = ", upTN, upCT, upGC, upDC, upIC, upIx, upFK, upCI, upAO, upCS, upCR, upIH, upSt0"
+SKIP_STMT = {"eachClosed", "pKwTable"}
+stmt_all = [d for d in parse_defs(rd("MsqModel/Parse/Stmt.lean")) if (typed(d) or d.alias) and d.name not in SKIP_STMT]
+entry_src = rd("MsqModel/Parse/Entry.lean")
+entry_defs = [d for d in parse_defs(entry_src) if typed(d) and d.name in ("pStatements", "pSubValue")]
+_rv = rv
+
+
+def rv(t):       # results that ARE cursors / segment lists
+    t0 = strip_par(t)
+    if t0 == "List (List Tok)": return "CELL"
+    if t0 == "List Tok": return "CEL"
+    return _rv(t)
+
+
+def stmt_fn(d):
+    params = [(n, ty) for b, ns, ty in d.binders if b == "(" for n in ns] + [(None, t) for t in d.arrows]
+    return mk_fn(d.name, params, d.ret, d.body, False)
+
+
+def ec_name(arg):
+    return "eachClosed_" + re.sub(r"\W+", "_", arg).strip("_")
+
+
+def each_closed_lemmas(body, done):
+    out = []
+    for m in re.finditer(r"eachClosed\s+(\((?:[^()]|\([^()]*\))*\)|\w+)", body):
+        arg = m.group(1)
+        if arg in done: continue
+        done.add(arg)
+        inner = arg[1:-1].split() if arg.startswith("(") else [arg]
+        p, has = inner[0], len(inner) > 1
+        ret = fns[p].ret if p in fns else [d for d in prim + pre + stmt_all if d.name == p][0].ret
+        f = upfun(strip_par(ret)[2:])
+        bind = "(d : Gen.D) (f : Nat) " if has else ""
+        lem = "%s_ce%s" % (p, " d f" if has else "")
+        if f is None:
+            out += ["theorem %s_ce %s: ∀ segs segs', CELL segs segs' → CEX Eq (eachClosed %s segs) (eachClosed %s segs') :=" % (ec_name(arg), bind, arg, arg),
+                    "  eachClosed_ce_eq _ _ (fun sg sg' h => %s sg sg' h)" % lem]
+        else:
+            out += ["theorem %s_ce %s: ∀ segs segs', CELL segs segs' → CEX (ceq (List.map %s)) (eachClosed %s segs) (eachClosed %s segs') :=" % (ec_name(arg), bind, f, arg, arg),
+                    "  eachClosed_ce %s _ _ (fun sg sg' h => %s sg sg' h)" % (f, lem)]
+        out += ["grind_pattern %s_ce => eachClosed %s segs, eachClosed %s segs'" % (ec_name(arg), arg, arg), ""]
+    return out
+
+
+out = ["import MsqProofs.Lemmas.ParseCase", "import MsqProofs.Lemmas.ParseCase4",
+       HEADER % "the statement level (MsqModel/Parse/Stmt.lean) and `parse_statements` on two case-equivalent token lists"] + OPTS
+for n in order:
+    xs_, ys_, _, a1, a2 = quant(fns[n])
+    out.append("grind_pattern %s_ce => %s, %s" % (n, " ".join([n, "d", "f"] + a1), " ".join([n, "d", "f"] + a2)))
+out.append("")
+GR = GRIND.replace("%s]", UPS_STMT + "]")
+ec_done = set()
+for d in stmt_all + entry_defs:
+    out += each_closed_lemmas(d.body, ec_done)
+    if d.alias is not None:
+        tgt = d.alias.split()[0]
+        if tgt == "pKwTable":
+            out += ["theorem %s_ce : ∀ x0 y0, CEL x0 y0 → CER (ceq upSt0) (%s x0) (%s y0) := by" % (d.name, d.name, d.name),
+                    "  intro x0 y0 hr0", "  generalize h : %s x0 = res" % d.name, "  generalize h' : %s y0 = res'" % d.name,
+                    "  unfold %s pKwTable at h h'" % d.name, "  " + CLOSE + GR]
+        else:
+            out += ["theorem %s_ce : ∀ x0 y0, CEL x0 y0 → CER (ceq upIx) (%s x0) (%s y0) := by" % (d.name, d.name, d.name),
+                    "  intro x0 y0 hr0", "  unfold %s" % d.name, "  exact %s_ce _ _ x0 _ _ y0 rfl rfl hr0" % tgt]
+        out += ["grind_pattern %s_ce => %s x0, %s y0" % (d.name, d.name, d.name), ""]
+        continue
+    f = stmt_fn(d)
+    xs_, ys_, hyps, a1, a2 = quant(f)
+    hs = ["hr%d" % i for i in range(len(hyps))]
+    k = 0; destruct = []
+    for i, t in enumerate(f.ptys):
+        if f.skip[i]: continue
+        if strip_par(t) in STRUCT_ARGS: destruct += ["cases x%d" % k, "cases y%d" % k]
+        k += 1
+    des = ("; ".join(destruct) + "; ") if destruct else ""
+    bind = "(d : Gen.D) (f : Nat) " if any(f.skip) else ""
+    out.append("theorem %s_ce %s: %s := by" % (d.name, bind, statement(f)))
+    app1, app2 = " ".join([d.name] + a1), " ".join([d.name] + a2)
+    if d.name == "createElems":
+        out += ["  intro x0", "  induction x0 with",
+                "  | nil => intro x1 y0 y1 hr0 hr1; cases y0 <;> simp_all [createElems]",
+                "  | cons sg rest ih =>", "    intro x1 y0 y1 hr0 hr1", "    cases y0 with", "    | nil => simp at hr0", "    | cons sg' rest' =>",
+                "      simp only [cell_cons_cons] at hr0", "      cases x1; cases y1",
+                "      generalize h : createElems d f (sg :: rest) _ = res", "      generalize h' : createElems d f (sg' :: rest') _ = res'",
+                "      unfold createElems at h h'", "      " + CLOSE + GR]
+    elif uses(d.name, d.body):
+        assert hyps[0] == "x0 = y0", d.name
+        out += ["  intro x0", "  induction x0 with",
+                "  | zero => intro %s y0 %s %s; subst hr0; simp [%s]" % (" ".join(xs_[1:]), " ".join(ys_[1:]), " ".join(hs), d.name),
+                "  | succ g ih =>", "    intro %s y0 %s %s" % (" ".join(xs_[1:]), " ".join(ys_[1:]), " ".join(hs)), "    subst hr0",
+                "    generalize h : %s = res" % app1.replace(" x0", " (g+1)", 1), "    generalize h' : %s = res'" % app2.replace(" y0", " (g+1)", 1),
+                "    " + des + "unfold %s at h h'" % d.name, "    " + CLOSE + GR]
+    else:
+        out += ["  intro %s" % " ".join(xs_ + ys_ + hs), "  generalize h : %s = res" % app1, "  generalize h' : %s = res'" % app2,
+                "  " + des + "unfold %s at h h'" % d.name, "  " + CLOSE + GR]
+    pat1 = " ".join([d.name] + a1); pat2 = " ".join([d.name] + a2)
+    out += ["grind_pattern %s_ce => %s, %s" % (d.name, pat1, pat2), ""]
+out += ["end PM"]
+open(os.path.join(LEAN, "MsqProofs/Lemmas/ParseCaseStmt.lean"), "w", encoding="utf-8").write("\n".join(out) + "\n")
+print("statement level:", len(stmt_all) + len(entry_defs))
